@@ -4,10 +4,11 @@ type ChildNodes []*ChildNode
 
 func (nodes ChildNodes) Individuals() (individuals IndividualNodes) {
 	for _, child := range nodes {
-		pointer := valueToPointer(child.Value())
-		individual := nodes[0].Family().Document().NodeByPointer(pointer)
-
-		individuals = append(individuals, individual.(*IndividualNode))
+		// Children that point to an individual that does not exist are
+		// ignored.
+		if individual := child.Individual(); individual != nil {
+			individuals = append(individuals, individual)
+		}
 	}
 
 	return
@@ -19,7 +20,8 @@ func (nodes ChildNodes) Similarity(other ChildNodes, options SimilarityOptions) 
 
 func (nodes ChildNodes) ByPointer(pointer string) *ChildNode {
 	for _, node := range nodes {
-		if node.Individual().Pointer() == pointer {
+		individual := node.Individual()
+		if individual != nil && individual.Pointer() == pointer {
 			return node
 		}
 	}
@@ -29,8 +31,9 @@ func (nodes ChildNodes) ByPointer(pointer string) *ChildNode {
 
 func (nodes ChildNodes) IndividualByPointer(pointer string) *IndividualNode {
 	for _, node := range nodes {
-		if node.Individual().Pointer() == pointer {
-			return node.Individual()
+		individual := node.Individual()
+		if individual != nil && individual.Pointer() == pointer {
+			return individual
 		}
 	}
 
